@@ -532,7 +532,19 @@ func (m *M) window() (*big.Int, string) {
 		d = m.randBig(new(big.Int).Lsh(one, uint(1+m.rng.Intn(72))))
 	}
 	half := new(big.Int).Rsh(new(big.Int).Add(bigP, one), 1)
-	switch m.rng.Intn(14) {
+	switch m.rng.Intn(17) {
+	case 14, 15: // p minus a power of two (any bit position), and a little around it
+		t := new(big.Int).Sub(bigP, new(big.Int).Lsh(one, uint(m.rng.Intn(256))))
+		if m.rng.Intn(3) == 0 {
+			t.Add(t, big.NewInt(int64(m.rng.Intn(5)-2)))
+		}
+		return t.Mod(t, bigP), "p_minus_pow2"
+	case 16: // a power of two (any bit position), and a little around it
+		t := new(big.Int).Lsh(one, uint(m.rng.Intn(256)))
+		if m.rng.Intn(3) == 0 {
+			t.Add(t, big.NewInt(int64(m.rng.Intn(5)-2)))
+		}
+		return t.Mod(t, bigP), "pow2"
 	case 12, 13: // next to j * 2^256 / c for the small constants of the formulas (2, 3, 4, 8, b3 = 21): where c * v wraps
 		c := []int64{2, 3, 4, 8, 21, 21}[m.rng.Intn(6)]
 		j := int64(1 + m.rng.Intn(int(c-1)))
